@@ -105,6 +105,25 @@ class Box:
         self._stamp_dirs()
         return self.clock
 
+    def replace(self, f, content, older):
+        """rename another file into place: new content, the file's mtime equal to (or one below) the
+        replaced file's, the directory's mtime advances"""
+        self.clock += 1
+        p = self.path(f)
+        old = int(os.stat(p).st_mtime) - BASE
+        tmp = os.path.join(self.root, 'incoming.tmp')
+        with open(tmp, 'w') as fh:
+            fh.write(self._render(content))
+        t = old - 1 if older else old
+        os.utime(tmp, (BASE + t, BASE + t))
+        os.replace(tmp, p)
+        self.dir_mtime[self._dir_of(f)] = self.clock
+        self._stamp_dirs()
+        return self.clock
+
+    def mtime(self, f):
+        return int(os.stat(self.path(f)).st_mtime) - BASE
+
     def delete(self, f):
         self.clock += 1
         os.unlink(self.path(f))
